@@ -60,17 +60,38 @@ pub fn c34_checked_pow_table() {
   assert!(POW10[38] == 100_000_000_000_000_000_000_000_000_000_000_000_000 && POW10[0] == 1, "C34.checked_pow.table_ends");
 }
 
+static mut UF_SET: bool = false;
+static mut UF_A: u128 = 0;
+static mut UF_B: u128 = 0;
+static mut UF_R: Option<u128> = None;
+
+/// 128-bit checked multiplication as an uninterpreted function (same arguments => same result):
+/// CBMC cannot equate two 128x128 multipliers; the contract of to_integer does not depend on what
+/// multiplication is, only on which operands reach it and what is done with the result.
+pub fn uf_checked_mul(a: u128, b: u128) -> Option<u128> {
+  unsafe {
+    if !(UF_SET && UF_A == a && UF_B == b) {
+      UF_SET = true;
+      UF_A = a;
+      UF_B = b;
+      UF_R = kani::any();
+    }
+    UF_R
+  }
+}
+
 /// to_integer(value, scale, divisibility) = value * 10^(divisibility - scale) exactly, or an error:
 /// excess precision (divisibility < scale), power of ten out of range (difference >= 39), amount
 /// overflow.  Every value, scale and divisibility; the power of ten enters under its contract.
 //# props: C34
 //# kind: complete (every value, scale and divisibility; loop-free given the checked_pow contract)
 //# fns: decimal::Decimal::to_integer
-//# assume: u128::checked_pow(10, e) is the table of powers of ten (stub; the table is checked against the real function by c34_checked_pow_table)
+//# assume: u128::checked_pow(10, e) is the table of powers of ten (stub; the table is checked against the real function by c34_checked_pow_table); u128::checked_mul is an uninterpreted function (the harness proves which operands are multiplied and that None becomes an error, not the multiplier circuit)
 //# timeout: 600
 #[cfg_attr(kani, kani::proof)]
 #[cfg_attr(kani, kani::unwind(4))]
 #[cfg_attr(kani, kani::stub(u128::checked_pow, contract_checked_pow))]
+#[cfg_attr(kani, kani::stub(u128::checked_mul, uf_checked_mul))]
 #[cfg_attr(kani, kani::stub(std::backtrace::Backtrace::capture, backtrace_disabled))]
 pub fn c34_to_integer_exact() {
   let value: u128 = kani::any();
@@ -165,6 +186,8 @@ fn from_str_shape(w: usize, tz: usize, lit: &'static str) {
   }
   set_parsed(Some(i), Some(d));
   let s = text(i, d, w, lit);
+  #[cfg(not(kani))]
+  eprintln!("REPLAY-INPUT: Decimal::from_str({s:?})");
   let got = forget(s.parse::<Decimal>());
   let sig = w - tz;
   let frac = if tz < 39 { d / POW10[tz] } else { 0 };
